@@ -54,7 +54,7 @@ impl Property for C17 {
         "C17"
     }
     fn rule(&self) -> String {
-        "point triples at scales 1e-2..1e2 m, up to 1e3 m from the origin, triangle height/base from 1 down to 1e-6, images under random rigid motions; one image point perturbed by |delta| in {0, 1 mm, 4.9 mm, 5.1 mm, 2 cm, random} \
+        "point triples at scales 1e-2..1e2 m, up to 1e3 m from the origin, triangle height/base from 1 down to 1e-6 (one in four with an isosceles corner at the first point), images under random rigid motions; one image point perturbed by |delta| in {0, 1 mm, 4.9 mm, 5.1 mm, 2 cm, random} \
          (the oracle recomputes the three mutual-distance differences; 1e-9 guard around 5 mm); exactly collinear sources / targets from small-integer coordinates; Frame::translation; forward_transformed over robots x frames x joints x previous (one case in three after the same joints were replayed on a frame around another robot). \
          Non-trivial: an unperturbed triple whose conditioning bound is below 1e-3 (frame compared with the generating motion), a decided perturbed triple, a collinear triple, or a forward_transformed call with >= 1 answer."
             .into()
@@ -82,12 +82,17 @@ impl Property for C17 {
             prop_oneof![Just(1.0), 0.01..1.0f64, 1.0..100.0f64],
             vec3(1.0),
             vec3(1.0),
-            -1.0..2.0f64,
-            prop_oneof![4 => 0.1..1.0f64, 1 => Just(1e-3), 1 => Just(1e-6)],
+            // (t, h): the third point in the basis (d1, d2); one case in four has an isosceles corner at the first point (both edges leaving it equally long,
+            // e.g. unit edges along two axes), where only rounding decides which edge is the longer one
+            prop_oneof![
+                6 => (-1.0..2.0f64, prop_oneof![4 => 0.1..1.0f64, 1 => Just(1e-3), 1 => Just(1e-6)]),
+                1 => Just((0.0, 1.0)),
+                1 => (0.15..2.9f64).prop_map(|phi| (phi.cos(), phi.sin())),
+            ],
             iso_strategy(3.0),
             prop_oneof![3 => Just(None), 4 => (0u8..3, vec3(1.0), delta).prop_map(Some)],
         )
-            .prop_map(|(p1, s, d1, d2, t, h, motion, perturb)| Case::Triple { p1, s, d1, d2, t, h, motion, perturb });
+            .prop_map(|(p1, s, d1, d2, (t, h), motion, perturb)| Case::Triple { p1, s, d1, d2, t, h, motion, perturb });
         let small = || prop::array::uniform3(-5i8..=5);
         let coll = (any::<bool>(), small(), small(), small(), iso_strategy(3.0), prop_oneof![Just(1e-3), Just(1e-4), 1e-5..2e-3f64])
             .prop_map(|(source, base, dir, k, motion, thin)| Case::Collinear { source, base, dir, k, motion, thin });
@@ -119,6 +124,9 @@ impl Property for C17 {
                     let w = (*which % 3) as usize;
                     let d = unit_or(dir, [0.0, 0.0, 1.0]);
                     q[w] = add(&q[w], &scale(&d, *delta));
+                }
+                if (dist(&p[0], &p[1]) - dist(&p[0], &p[2])).abs() <= 1e-12 * (1.0 + *s) {
+                    ctx.class("triple:isosceles corner at the first point");
                 }
                 let res = no_panic(|| Frame::frame(pt(&p[0]), pt(&p[1]), pt(&p[2]), pt(&q[0]), pt(&q[1]), pt(&q[2]))).map_err(|e| viol!("no panic", "Frame::frame: {}", e))?;
                 // oracle: mutual distance differences
